@@ -19,7 +19,19 @@
       skipped), obtained by evaluating the module-level constant expressions
       of ecdsa.py in order.
 
-Both fail closed (TranslationError) on any source shape outside the subset.
+  gen_ec_affine -> coq/Gen/EcAffine.v
+      the arithmetic of the affine class Point: the two tests of Point.__add__ on the
+      equal-x branch (`self.__x == other.__x`, `(self.__y + other.__y) % p == 0`, whose
+      arms must be `return INFINITY` / `return self.double()`), the straight-line chord
+      formulas of __add__ and tangent formulas of double (the argument D of the single
+      call numbertheory.inverse_mod(D, p) as `ap_*_den`, the rest with the returned
+      inverse as parameter `inv` as `ap_*_xy`; the function must end in
+      `return Point(self.__curve, x3, y3)`), and the coordinates __neg__ passes to the
+      constructor.  self.__x/__y, other.__x/__y, self.__curve.p()/a() become the
+      parameters sx sy ox oy p a.  The guards before the x test of __add__ and the
+      INFINITY test of double are hand-modelled (Model/EcAffine.v).
+
+All fail closed (TranslationError) on any source shape outside the subset.
 """
 import ast
 
@@ -355,4 +367,150 @@ def gen_curves():
     return "Curves.v", out
 
 
-GENERATORS = [gen_ec_formulas, gen_curves]
+# --------------------------------------------------------------------------
+# the affine class Point: __add__, double, __neg__ (straight-line parts)
+
+AFF_ATTRS = {"self.__x": "sx", "self.__y": "sy", "other.__x": "ox", "other.__y": "oy",
+             "self.__curve.p()": "p", "self.__curve.a()": "a"}
+
+
+def _strip_doc(body):
+    return [s for s in body if not (isinstance(s, ast.Expr) and isinstance(s.value, ast.Constant)
+                                    and isinstance(s.value.value, str))]
+
+
+def _point_ctor_xy(ret, what, nargs=3):
+    """`return Point(self.__curve, X, Y)` -> (X, Y) (ast nodes).  A fourth argument would be the
+    order, which switches on the order assertion of Point.__init__: refused here."""
+    if not (isinstance(ret, ast.Return) and isinstance(ret.value, ast.Call) and isinstance(ret.value.func, ast.Name)
+            and ret.value.func.id == "Point" and not ret.value.keywords and len(ret.value.args) == nargs
+            and ast.unparse(ret.value.args[0]) == "self.__curve"):
+        raise TranslationError("%s: expected `return Point(self.__curve, x, y)`, found %s" % (
+            what, ast.unparse(ret) if ret is not None else None))
+    return ret.value.args[1], ret.value.args[2]
+
+
+class _InvOut(ast.NodeTransformer):
+    """replace the (single) call numbertheory.inverse_mod(D, p) by the name `inv`; D is kept"""
+
+    def __init__(self, what):
+        self.what = what
+        self.den = None
+
+    def visit_Call(self, n):
+        if ast.unparse(n.func) == "numbertheory.inverse_mod":
+            if self.den is not None:
+                raise TranslationError("%s: more than one inverse_mod call" % self.what)
+            if n.keywords or len(n.args) != 2 or ast.unparse(n.args[1]) != "p":
+                raise TranslationError("%s: expected numbertheory.inverse_mod(<expr>, p)" % self.what)
+            for sub in ast.walk(n.args[0]):
+                if isinstance(sub, ast.Call) and ast.unparse(sub.func) == "numbertheory.inverse_mod":
+                    raise TranslationError("%s: nested inverse_mod" % self.what)
+            self.den = n.args[0]
+            return ast.copy_location(ast.Name("inv", ast.Load()), n)
+        return self.generic_visit(n)
+
+
+def _straight_line(stmts, what, params, fname):
+    """[assignments ...; return Point(self.__curve, X, Y)] with one inverse_mod(D, p) inside ->
+    (text of `<fname>_den params := D` and `<fname>_xy params inv := (X, Y)`).
+    Names assigned before the inverse_mod call may occur in D: the denominator function repeats
+    those assignments."""
+    if not stmts:
+        raise TranslationError("%s: empty body" % what)
+    x, y = _point_ctor_xy(stmts[-1], what)
+    pre = list(stmts[:-1])
+    for s in pre:
+        if not (isinstance(s, ast.Assign) and len(s.targets) == 1 and isinstance(s.targets[0], ast.Name)):
+            raise TranslationError("%s: only plain assignments are allowed before the return, found %s" % (
+                what, ast.unparse(s)))
+        if s.targets[0].id in ("inv",) + tuple(params):
+            if not (s.targets[0].id in ("p", "a") and ast.unparse(s.value) == "self.__curve.%s()" % s.targets[0].id):
+                raise TranslationError("%s: assignment to %s" % (what, s.targets[0].id))
+    inv = _InvOut(what)
+    idx = None
+    new = []
+    for k, s in enumerate(pre):
+        s2 = inv.visit(ast.parse(ast.unparse(s)).body[0])
+        if inv.den is not None and idx is None:
+            idx = k
+        new.append(s2)
+    for e in (x, y):
+        for sub in ast.walk(e):
+            if isinstance(sub, ast.Call):
+                raise TranslationError("%s: call in the constructor arguments" % what)
+    if inv.den is None:
+        raise TranslationError("%s: no inverse_mod call" % what)
+    sig = " ".join("(%s : Z)" % v for v in params)
+    tr = EcTr("Z", attr_map=dict(AFF_ATTRS))
+    den_body = tr.block(new[:idx] + [ast.Return(inv.den)], set(params), None)
+    tr2 = EcTr("Z", attr_map=dict(AFF_ATTRS))
+    xy_body = tr2.block(new + [ast.Return(ast.Tuple([x, y], ast.Load()))], set(params) | {"inv"}, None)
+    out = "Definition %s_den %s : Z :=\n  %s.\n\n" % (fname, sig, den_body)
+    out += "Definition %s_xy %s (inv : Z) : Z * Z :=\n  %s.\n" % (fname, sig, xy_body)
+    return out
+
+
+def gen_ec_affine():
+    tree = parse(EC_PY)
+    out = HEADER % (EC_PY + " (class Point: the arithmetic of __add__, double, __neg__)")
+    out += "Open Scope Z_scope.\n\n"
+    # ---- __add__
+    fn = find_func(tree, "__add__", "Point")
+    if [a.arg for a in fn.args.args] != ["self", "other"] or fn.decorator_list:
+        raise TranslationError("Point.__add__: signature")
+    body = _strip_doc(fn.body)
+    k = None
+    for i, s in enumerate(body):
+        if isinstance(s, ast.If) and isinstance(s.test, ast.Compare) and "__x" in ast.unparse(s.test):
+            k = i
+            break
+    if k is None:
+        raise TranslationError("Point.__add__: `if self.__x == other.__x:` not found")
+    for s in body[:k]:
+        # the guards before it (isinstance, INFINITY operands, same-curve assertion) are hand-modelled
+        # (Model/EcAffine.v: ap_add) and tied by correspondence; they must not bind names
+        if not isinstance(s, (ast.If, ast.Assert)) or any(isinstance(n, (ast.Assign, ast.AugAssign, ast.NamedExpr))
+                                                         for n in ast.walk(s)):
+            raise TranslationError("Point.__add__: unexpected statement before the x test: %s" % ast.unparse(s))
+    sx = body[k]
+    if sx.orelse or len(sx.body) != 1 or not isinstance(sx.body[0], ast.If):
+        raise TranslationError("Point.__add__: shape of the equal-x branch")
+    opp = sx.body[0]
+    if len(opp.body) != 1 or len(opp.orelse) != 1 or ast.unparse(opp.body[0]) != "return INFINITY" or \
+            ast.unparse(opp.orelse[0]) != "return self.double()":
+        raise TranslationError("Point.__add__: expected `return INFINITY` / `return self.double()` in the equal-x branch")
+    params = ["sx", "sy", "ox", "oy", "p"]
+    sig = " ".join("(%s : Z)" % v for v in params)
+    tr = EcTr("Z", attr_map=dict(AFF_ATTRS))
+    out += "(* Point.__add__: `if %s:` *)\n" % ast.unparse(sx.test)
+    out += "Definition ap_add_same_x %s : bool :=\n  %s.\n\n" % (sig, tr.cond(sx.test))
+    out += "(* Point.__add__: `if %s: return INFINITY else: return self.double()` *)\n" % ast.unparse(opp.test)
+    out += "Definition ap_add_opposite %s : bool :=\n  %s.\n\n" % (sig, tr.cond(opp.test))
+    out += "(* Point.__add__, different x: the argument of inverse_mod(., p) and the chord formulas\n"
+    out += "   (inv = the value inverse_mod returned); the result is Point(curve, x3, y3) *)\n"
+    out += _straight_line(body[k + 1:], "Point.__add__", params, "ap_add") + "\n"
+    # ---- double
+    fn = find_func(tree, "double", "Point")
+    if [a.arg for a in fn.args.args] != ["self"] or fn.decorator_list:
+        raise TranslationError("Point.double: signature")
+    body = _strip_doc(fn.body)
+    if not body or ast.unparse(body[0]) != "if self == INFINITY:\n    return INFINITY":
+        raise TranslationError("Point.double: expected `if self == INFINITY: return INFINITY` first")
+    out += "(* Point.double (self not INFINITY): the argument of inverse_mod(., p) and the tangent formulas *)\n"
+    out += _straight_line(body[1:], "Point.double", ["sx", "sy", "p", "a"], "ap_double") + "\n"
+    # ---- __neg__
+    fn = find_func(tree, "__neg__", "Point")
+    if [a.arg for a in fn.args.args] != ["self"] or fn.decorator_list:
+        raise TranslationError("Point.__neg__: signature")
+    body = _strip_doc(fn.body)
+    if len(body) != 1:
+        raise TranslationError("Point.__neg__: expected a single return")
+    x, y = _point_ctor_xy(body[0], "Point.__neg__")
+    tr = EcTr("Z", attr_map=dict(AFF_ATTRS))
+    out += "(* Point.__neg__: Point(curve, x, y) without order *)\n"
+    out += "Definition ap_neg_xy (sx : Z) (sy : Z) (p : Z) : Z * Z :=\n  %s.\n" % tr.expr(ast.Tuple([x, y], ast.Load()))
+    return "EcAffine.v", out
+
+
+GENERATORS = [gen_ec_formulas, gen_curves, gen_ec_affine]
